@@ -31,7 +31,7 @@ def run_with_stages(prop, main_spec, stages, tier, seed, t0):
     merged = {}
     viol = 0
     for st in stages:
-        rcs.append(D.run(st, tier, seed, t0))
+        rcs.append(st.run_stage(tier, seed, t0) if hasattr(st, "run_stage") else D.run(st, tier, seed, t0))
         if os.path.exists(ev_path):
             ev = json.load(open(ev_path))
             cov = ev.get("coverage", {})
@@ -51,5 +51,22 @@ def replay(path, main_spec, stages):
     txt = open(path).read()
     for st in stages:
         if "stage: %s" % st.stage_tag in txt:
-            return D.do_replay(st, path)
+            return st.replay_stage(path) if hasattr(st, "replay_stage") else D.do_replay(st, path)
     return D.do_replay(main_spec, path)
+
+
+class AllocStage:
+    """the allocator check (C20's machinery: model correspondence + set-specification monitor on ValueAllocator
+    traces, ranges ending at the integer type's maximum included) as a stage of a property that relies on it"""
+    stage_tag = "alloc"
+
+    def __init__(self, prop):
+        self.prop = prop
+
+    def run_stage(self, tier, seed, t0):
+        from .props import c20
+        return c20.run_alloc(self.prop, self.stage_tag, tier, seed, t0)
+
+    def replay_stage(self, path):
+        from .props import c20
+        return c20.replay(path, self.prop)
